@@ -91,39 +91,44 @@ theorem json_number_roundtrip (tok : Str) (x y : ℚ) (hx : IsF64 x) (hp : parse
     (hc : Text.close x y = true) : (parseDec tok).bind F64.rne = some x := by
   rw [hp]; exact rne_roundtrip_of_close x y hx ((close_sound x y).mp hc)
 
-/-- **ROS1 bag stamps, all stamps.**  For every binary64 stamp `0 ≤ x < 2³¹`:
-`write_bag_trajectory` (evo) stores `sec = ⌊x⌋` (`int(stamp // 1)`) and
-`nanosec = ⌊rne((x − sec)·10⁹)⌋` with `0 ≤ nanosec ≤ 10⁹` — `x − sec` is exact in binary64
-(`F64.isF64_fract`), `int()` truncates a non-negative value; rosbags stores and returns the two
-unsigned integers unchanged; `read_bag_trajectory` (evo) computes
-`x' = rne(sec + rne(nanosec · rne(10⁻⁹)))`.  Then `x'` is a binary64 value with
-`|x' − x| ≤ 1 ns + x·2⁻⁵³ + 2⁻⁵⁰` **and** `|x' − x| ≤ 2 ns + 2⁻⁴⁹`. -/
+/-- **ROS1 bag stamps, every stamp, literal clause.**  For every binary64 stamp `0 ≤ x < 2³¹`:
+`write_bag_trajectory` (evo, after the repair of F14) stores `sec = int(stamp // 1)` and
+`nanosec = int(round((stamp − sec)·1e9))` (`stamp − sec` is exact in binary64: `F64.isF64_fract`;
+the product is rounded; `round` is half-even) with the carry `10⁹ → (sec + 1, 0)`, so that
+`0 ≤ nanosec < 10⁹` and the header represents `x` to within 0.5 ns + 2⁻⁵² s; rosbags stores and
+returns the two unsigned integers unchanged; `read_bag_trajectory` (evo) computes
+`x' = rne(sec + rne(nanosec · rne(10⁻⁹)))`.  Then `x'` is a binary64 value with `|x' − x| ≤ 1 ns`. -/
 theorem bag_stamp_error (x : ℚ) (hx : IsF64 x) (h0 : 0 ≤ x) (h31 : x < 2 ^ 31) :
-    ∃ (ns : ℤ) (x' : ℚ), bagSplit x = some (⌊x⌋, ns) ∧ 0 ≤ ns ∧ ns ≤ 10 ^ 9 ∧
-      bagJoin ⌊x⌋ ns = some x' ∧ IsF64 x' ∧
-      |x' - x| ≤ 1 / 10 ^ 9 + x / 2 ^ 53 + 1 / 2 ^ 50 ∧ |x' - x| ≤ 2 / 10 ^ 9 + 1 / 2 ^ 49 :=
-  F64.bag_roundtrip x hx h0 h31
+    ∃ (sec ns : ℤ) (x' : ℚ), bagSplit x = some (sec, ns) ∧ 0 ≤ ns ∧ ns < 10 ^ 9 ∧
+      (sec = ⌊x⌋ ∨ (sec = ⌊x⌋ + 1 ∧ ns = 0)) ∧
+      |(sec : ℚ) + (ns : ℚ) / 10 ^ 9 - x| ≤ 1 / (2 * 10 ^ 9) + 2 / 2 ^ 53 ∧
+      bagJoin sec ns = some x' ∧ IsF64 x' ∧ |x' - x| ≤ 1 / 10 ^ 9 := by
+  obtain ⟨sec, ns, x', h1, h2, h3, h4, h5, h6, h7, h8, -⟩ := F64.bag_roundtrip x hx h0 h31
+  exact ⟨sec, ns, x', h1, h2, h3, h4, h5, h6, h7, h8⟩
 
-/-- Stamps whose binary64 spacing `2^e` satisfies `2^(e−1) > 2 ns + 2⁻⁴⁹` (every stamp
-`≥ 2²⁵ s`, UNIX-epoch stamps in particular) come back **identical**. -/
+/-- Stamps whose binary64 spacing `2^e` exceeds 2 ns (`2^(e−1) > 1 ns + 2⁻⁴⁹`: every stamp
+`≥ 2²⁴ s`, UNIX-epoch stamps in particular) come back **identical**. -/
 theorem bag_stamp_exact_of_coarse (m e : ℤ) (hm : 2 ^ 52 ≤ m) (hm' : m < 2 ^ 53) (he1 : -1074 ≤ e)
     (he2 : e ≤ 971) (h31 : (m : ℚ) * (2 : ℚ) ^ e < 2 ^ 31)
-    (hgap : 2 / 10 ^ 9 + 1 / 2 ^ 49 < (2 : ℚ) ^ (e - 1)) :
-    ∃ ns : ℤ, bagSplit ((m : ℚ) * (2 : ℚ) ^ e) = some (⌊(m : ℚ) * (2 : ℚ) ^ e⌋, ns) ∧
-      bagJoin ⌊(m : ℚ) * (2 : ℚ) ^ e⌋ ns = some ((m : ℚ) * (2 : ℚ) ^ e) :=
+    (hgap : 1 / 10 ^ 9 + 1 / 2 ^ 49 < (2 : ℚ) ^ (e - 1)) :
+    ∃ sec ns : ℤ, bagSplit ((m : ℚ) * (2 : ℚ) ^ e) = some (sec, ns) ∧
+      bagJoin sec ns = some ((m : ℚ) * (2 : ℚ) ^ e) :=
   F64.bag_exact_of_coarse m e hm hm' he1 he2 h31 hgap
 
-/-- The literal clause "timestamps to within one nanosecond" does **not** hold for all stamps:
-for `x = 10606899.173131479` (a binary64 value in `[2²³, 2²⁴)` s, spacing 2⁻²⁹ s ≈ 1.86 ns) the
-`floor` in `nanosec = int((stamp − sec)·1e9)` loses 0.52 ns and the reassembled sum rounds to the
-neighbouring double: `x' = x − 2⁻²⁹`, 1.86 ns away (within the proved 2 ns bound). -/
+/-- The **pre-repair** code (`nanosec = int((stamp − sec)·1e9)`, truncation: `bagSplitTrunc`) did
+not satisfy the clause "timestamps to within one nanosecond" (finding F14): for
+`x = 10606899.173131479` (binary64, in `[2²³, 2²⁴)` s, spacing 2⁻²⁹ s ≈ 1.86 ns) truncation
+loses 0.52 ns and the reassembled sum rounds to the neighbouring double, 1.86 ns away; the
+repaired code returns `x` itself. -/
 theorem bag_stamp_1ns_counterexample :
     IsF64 (5694535632571143 / 536870912) ∧
-    bagSplit (5694535632571143 / 536870912) = some (10606899, 173131478) ∧
+    bagSplitTrunc (5694535632571143 / 536870912) = some (10606899, 173131478) ∧
     bagJoin 10606899 173131478 = some (2847267816285571 / 268435456) ∧
-    (1 : ℚ) / 10 ^ 9 < |(2847267816285571 / 268435456 : ℚ) - 5694535632571143 / 536870912| := by
+    (1 : ℚ) / 10 ^ 9 < |(2847267816285571 / 268435456 : ℚ) - 5694535632571143 / 536870912| ∧
+    bagSplit (5694535632571143 / 536870912) = some (10606899, 173131479) ∧
+    bagJoin 10606899 173131479 = some (5694535632571143 / 536870912) := by
   refine ⟨⟨5694535632571143, -29, by norm_num, by norm_num, by norm_num, by norm_num⟩,
-    by decide +kernel, by decide +kernel, by norm_num⟩
+    by decide +kernel, by decide +kernel, by norm_num, by decide +kernel, by decide +kernel⟩
 
 /-- **DataFrame.** With the column table `trajectory_to_df` uses and the column names
 `df_to_trajectory` selects (both regenerated from pandas_bridge.py on every run),
@@ -181,6 +186,8 @@ example : Json.escape "a\"\\\n\x01é😀".toList = "a\\\"\\\\\\n\\u0001\\u00e9\\
 example : losslessFmt "%.18e" = true ∧ losslessFmt "%.9f" = false ∧ losslessFmt "%.8e" = false ∧
     losslessFmt "%.16e" = false ∧ losslessFmt "<dynamic>" = false := by decide +kernel
 example : bagSplit 1500000000 = some (1500000000, 0) ∧ bagJoin 1500000000 0 = some 1500000000 := by decide +kernel
+/-- the carry: 7.9999999996 → (8, 0) → 8.0, 0.4 ns away -/
+example : bagSplit (1125899906786329 / 140737488355328) = some (8, 0) ∧ bagJoin 8 0 = some 8 := by decide +kernel
 /-- a long TUM member, a shorter TUM member, a KITTI member; unicode names; names ending in another suffix -/
 example : (Cont.loadRes (I := Unit) (S := Unit) (A := Nat) (T := Str) (fun _ s => some s) true
       (Cont.saveRes (fun _ t => t) ⟨(), (), [("err".toList, 1), ("x.tum".toList, 2)],
@@ -194,8 +201,8 @@ example : Cont.stem "dir/x.tum".toList = "x".toList ∧ Cont.stem ".tum".toList 
 example : Cont.dfToTrajWith Evo.Gen.dfReaderQuat Evo.Gen.dfReaderPos (Cont.trajToDfWith Evo.Gen.dfWriterSlots
     (.timed [10, 11] [⟨1, 2, 3, 4, 5, 6, 7⟩, ⟨8, 9, 10, 11, 12, 13, 14⟩]))
     = some (.timed [10, 11] [⟨1, 2, 3, 4, 5, 6, 7⟩, ⟨8, 9, 10, 11, 12, 13, 14⟩]) := by decide +kernel
-/-- bag stamps: an epoch stamp with a nanosecond fraction comes back within 1 ns (here: 2⁻²² s off) -/
-example : bagSplit (6291456000517815 / 4194304) = some (1500000000, 123456716) ∧
-    bagJoin 1500000000 123456716 = some (6291456000517815 / 4194304) := by decide +kernel
+/-- bag stamps: an epoch stamp with a nanosecond fraction comes back identical -/
+example : bagSplit (6291456000517815 / 4194304) = some (1500000000, 123456717) ∧
+    bagJoin 1500000000 123456717 = some (6291456000517815 / 4194304) := by decide +kernel
 
 end Evo.C06
